@@ -1647,6 +1647,10 @@ def replace_functions_with_literals(source: str) -> str:
                 yield node, arg
 
 
+def _is_read_in(name: str, nodes: Iterable[ast.AST]) -> bool:
+    return any(True for node in nodes for _ in core.walk(node, ast.Name(id=name)))
+
+
 @processing.fix
 def replace_for_loops_with_dict_comp(source: str) -> str:
     assign_template = ast.Assign(
@@ -1684,6 +1688,11 @@ def replace_for_loops_with_dict_comp(source: str) -> str:
         if not core.match_template(
             body_node, ast.Assign(targets=[ast.Subscript(value=ast.Name(id=target))])
         ):
+            continue
+
+        # The comprehension is evaluated before target is assigned, while the loop sees what it has
+        # collected so far: nothing in the loop may mention target.
+        if _is_read_in(target, [body_node.targets[0].slice, body_node.value, *generators]):
             continue
 
         comp = ast.DictComp(
@@ -1750,6 +1759,17 @@ def replace_for_loops_with_set_list_comp(source: str) -> str:
         ))
 
         augass_template = ast.AugAssign(op=(ast.Add, ast.Sub), target=ast.Name(id=target))
+
+        # The comprehension is evaluated before target is assigned, while the loop sees what it has
+        # collected so far: nothing in the loop may mention target.
+        if isinstance(body_node, ast.Expr) and isinstance(body_node.value, ast.Call):
+            evaluated = [*body_node.value.args, *body_node.value.keywords, *generators]
+        elif isinstance(body_node, ast.AugAssign):
+            evaluated = [body_node.value, *generators]
+        else:
+            continue
+        if _is_read_in(target, evaluated):
+            continue
 
         if template_match := core.match_template(body_node, target_alter_template):
             if core.match_template(value, list_init_template) and (template_match.attr == "append"):
@@ -3077,6 +3097,14 @@ def replace_dictcomp_update_with_dict_literal(source: str) -> str:
             yield m.root, None, transaction
 
 
+def _mentions_code_of(variable: ast.AST, *nodes: ast.AST) -> bool:
+    """Does any of nodes contain the expression variable?"""
+    code = ast.unparse(variable)
+    return any(
+        ast.unparse(child) == code for node in nodes for child in core.walk(node, type(variable))
+    )
+
+
 def _is_recursive_binop_chain(node: ast.AST, op: ast.AST) -> bool:
     if isinstance(node, ast.BinOp):
         return isinstance(node.op, op) and _is_recursive_binop_chain(node.right, op)
@@ -3098,6 +3126,15 @@ def replace_setcomp_add_with_union(source: str) -> str:
     for before, after, template_match in processing.find_replace(
         source, find, replace, yield_match=True
     ):
+        # The folded expression is evaluated before variable is assigned: it may not mention it.
+        if _mentions_code_of(
+            template_match.variable,
+            template_match.target,
+            template_match.iterable,
+            template_match.something_else,
+        ):
+            continue
+
         if isinstance(template_match.root, ast.BinOp):
             if _is_recursive_binop_chain(template_match.root, ast.BitOr):
                 yield before, after
@@ -3115,6 +3152,10 @@ def replace_setcomp_add_with_union(source: str) -> str:
     for before, after, template_match in processing.find_replace(
         source, find, replace, yield_match=True
     ):
+        # The folded expression is evaluated before variable is assigned: it may not mention it.
+        if _mentions_code_of(template_match.variable, template_match.something_else):
+            continue
+
         if isinstance(template_match.root, ast.BinOp):
             if _is_recursive_binop_chain(template_match.root, ast.BitOr):
                 yield before, after
@@ -3136,6 +3177,15 @@ def replace_listcomp_append_with_plus(source: str) -> str:
     for before, after, template_match in processing.find_replace(
         source, find, replace, yield_match=True
     ):
+        # The folded expression is evaluated before variable is assigned: it may not mention it.
+        if _mentions_code_of(
+            template_match.variable,
+            template_match.target,
+            template_match.iterable,
+            template_match.something_else,
+        ):
+            continue
+
         if isinstance(template_match.root, ast.BinOp):
             if _is_recursive_binop_chain(template_match.root, ast.Add):
                 yield before, after
@@ -3153,6 +3203,10 @@ def replace_listcomp_append_with_plus(source: str) -> str:
     for before, after, template_match in processing.find_replace(
         source, find, replace, yield_match=True
     ):
+        # The folded expression is evaluated before variable is assigned: it may not mention it.
+        if _mentions_code_of(template_match.variable, template_match.something_else):
+            continue
+
         if isinstance(template_match.root, ast.BinOp):
             if _is_recursive_binop_chain(template_match.root, ast.Add):
                 yield before, after
